@@ -45,7 +45,7 @@ CHECKS = {
              "uto_apply_transaction; lemma C03.replay: the set stored at any block is the fold along that block's own "
              "ancestors whatever else is stored and in whatever order it arrived; the per-key balance index is a MEMO of a "
              "function of (stored blocks, block id): PublicKeyBalances.__getitem__ returns that function's value, only ever "
-             "stores such values, and never changes or drops an entry obtained earlier. BOUNDED (exploration, not counted as "
+             "stores such values, and an entry that stays in the memo keeps its value. BOUNDED (exploration, not counted as "
              "proved): the per-key balances (sum and exact reference list) against the unspent sets, and immutability of "
              "balance maps and snapshots obtained earlier, evaluated with the real code on every tree shape up to the "
              "stated bound, with spends that differ between forks, in several arrival orders and query orders.",
